@@ -732,6 +732,12 @@ for (int n = 0; n < count; n++)
 }
 #endif
 
+  if (asm_context->def_param_stack_count >= MAX_NESTED_MACROS)
+  {
+    print_error(asm_context, "Macros are nested too deep");
+    return nullptr;
+  }
+
   ptr = asm_context->def_param_stack_ptr[asm_context->def_param_stack_count];
 
   while (*define != 0)
